@@ -31,6 +31,7 @@ type footRoot struct {
 
 type footprint struct {
 	loopFrom, loopTo token.Pos // source range of the loop (locals declared inside are fresh per iteration)
+	inl              [][2]token.Pos // bodies of callees executed in place from the loop: their locals are per iteration too
 	allocMark        *Term
 	roots    []footRoot
 	cells    map[*Cell]bool
@@ -322,6 +323,11 @@ func (e *Exec) evalAtHead(st *State, x ast.Expr, fp *footprint, info *types.Info
 				v, ok = nil, false
 				return
 			}
+			// a local declared inside the loop (or inside a callee executed in place) has no value at the head
+			if msg, isS := r.(string); isS && strings.HasPrefix(msg, "read of unbound local") {
+				v, ok = nil, false
+				return
+			}
 			panic(r)
 		}
 	}()
@@ -593,7 +599,9 @@ func (e *Exec) scanCallWrites(st *State, call *ast.CallExpr, fp *footprint, info
 					}
 				}
 				fp.depth++
+				fp.inl = append(fp.inl, [2]token.Pos{d.Body.Pos(), d.Body.End()})
 				e.scanWrites(st, d.Body, fp, e.prog.declPkg[origin].TypesInfo)
+				fp.inl = fp.inl[:len(fp.inl)-1]
 				fp.depth--
 				for _, sc := range saved {
 					if sc.had {
@@ -608,7 +616,9 @@ func (e *Exec) scanCallWrites(st *State, call *ast.CallExpr, fp *footprint, info
 	}
 	if c.Inline {
 		if d := e.prog.decls[origin]; d != nil {
+			fp.inl = append(fp.inl, [2]token.Pos{d.Body.Pos(), d.Body.End()})
 			e.scanWrites(st, d.Body, fp, e.prog.declPkg[origin].TypesInfo)
+			fp.inl = fp.inl[:len(fp.inl)-1]
 		}
 		return
 	}
@@ -977,7 +987,15 @@ func (e *Exec) loopLocalValue(x ast.Expr, fp *footprint, info *types.Info) bool 
 			default:
 				return false
 			}
-			return v.Pos() > fp.loopFrom && v.Pos() < fp.loopTo
+			if v.Pos() > fp.loopFrom && v.Pos() < fp.loopTo {
+				return true
+			}
+			for _, r := range fp.inl {
+				if v.Pos() > r[0] && v.Pos() < r[1] {
+					return true
+				}
+			}
+			return false
 		default:
 			return false
 		}
